@@ -3,11 +3,11 @@ from ekw import c01_real, ctrl_check
 
 PROPERTY = "C01"
 LEVEL_TEXT = ("Lean theorems over the small-step system controller x abstract executors (Model/Ctrl.lean, extended system Model/Sched.lean): in every reachable state every stored copy and every delivered output equals the sequential denotation `den` (c01_store_sound, c01_outputs_sound); EVERY REQUESTED DATASET IS DELIVERED: from every reachable state, for any job, feasible cluster, admissible heuristic choice, event order and interleaving, it is inevitable - on every maximal execution, after finitely many steps - that run() returns with every requested output delivered with the sequential value and every task run exactly once (c01_delivers, c01_run_returns_outputs; termination is a theorem: well-founded measure + deadlock freedom, Lemmas/SchedTerm*.lean); the same with no free hypothesis left - component map := the one C16's precompute yields for the job (WFC proved for it), WF and Feasible as Bool checks that the drivers evaluate on every replayed input (c01_delivers_checked); two finished runs on different clusters/placements/event orders agree (c01_independent); c01_outputs_sequential / c01_return_complete / c01_run_delivers as before. Props/C01.lean exhibits reachable finished states with non-empty requested sets (one host; two hosts with a transfer, a late transfer notice and purges). Tied to the real controller by per-phase state correspondence (SimBridge) and a sequential-interpreter oracle, incl. the results a gateway-driven run reports through the real Reporter; the path from the controller's commands to the execution of a task (runner argument binding, output publication, shm, data server, zmq) is not proved but sampled end to end on real local clusters. ")
-LEVEL_NOTE = ("modelled, not verified: scheduler/api.py initialize/plan, scheduler/assign.py build_assignment + the pops of _assignment_heuristic, controller/act.py act/flush_queues, controller/notify.py notify/consider_*, impl.run loop skeleton (Model/Ctrl.lean, one Lean function per Python function). Abstracted as an oracle argument validated for admissibility by the model and supplied from what the real run chose: which (idle worker, computable task) pairs the distance/overhead heuristics and host->component migration pick per round, and which `available` host is the transmit source; theorems quantify over all admissible choices. Executors are abstract (Env; SimBridge mirrors it): a dispatched task runs once its inputs are on its host and publishes outputs in index order; transmit/fetch read the source store; purge is immediate. Hypothesis WF: tasks topologically numbered, inputs duplicate-free, >=1 output per task, requested outputs exist, worker ids distinct; WF, WFC (for the component map the real precompute/initialize produced) and Feasible are DECIDED by the Lean drivers on every replayed input (wfCheck/wfcCheck/feasCheck with soundness lemmas, Lemmas/CtrlWFCheck.lean; an input outside them is reported as a harness failure), not assumed of the generator. Fixed on the way: completion of a multi-output task was inferred from the notice of its LAST output, so under any-order delivery a run could spin, wait forever or exit early (fix commit d9c96b4, finding C01-last-output-overtakes now status fixed; corpus witnesses kept as regression inputs). Task values are uninterpreted terms: argument binding inside a task is C10, byte-faithful copies are C07, real (cloud)pickle is sampled only. Sampled, not modelled (harness/ekw/c01_real.py, 10 runs quick / 48 thorough, one per family: dense multi-host, GPU incl. 11-13 workers on one host, custom serdes, ndarray values, many positional arguments, replicated ndarray outputs, …): executor/runner/runner.py run (statics, positional and keyword edges, keyword edges into defaulted parameters, generator outputs in declaration order), runner/memory.py, runner/entrypoint.py, executor/executor.py, data_server.py and the zmq/shm transport, by end-to-end runs of the real controller.impl.run + Bridge + forked executors on 1-3 hosts x 1-3 workers (and 1 host x 11-13 GPU workers) against a sequential interpreter. Since the audit response: commands are interpreted with what they carry (TaskSequence.publish: a body publishes only the outputs named; the controller names all), termination is proved (Lemmas/SchedTerm*.lean; hypotheses WF, WFC, Feasible), the transmit source the real run took is additionally compared with the model's scan over the recorded iteration order of ds2host (another `available` host than the first is tolerated and counted).")
+LEVEL_NOTE = ("modelled, not verified: scheduler/api.py initialize/plan, scheduler/assign.py build_assignment + the pops of _assignment_heuristic, controller/act.py act/flush_queues, controller/notify.py notify/consider_*, impl.run loop skeleton (Model/Ctrl.lean, one Lean function per Python function). Abstracted as an oracle argument validated for admissibility by the model and supplied from what the real run chose: which (idle worker, computable task) pairs the distance/overhead heuristics and host->component migration pick per round, and which `available` host is the transmit source; theorems quantify over all admissible choices. Executors are abstract (Env; SimBridge mirrors it): a dispatched task runs once its inputs are on its host and publishes outputs in index order; transmit/fetch read the source store; purge is immediate. Hypothesis WF: tasks topologically numbered, inputs duplicate-free, >=1 output per task, requested outputs exist, worker ids distinct; WF, WFC (for the component map the real precompute/initialize produced) and Feasible are DECIDED by the Lean drivers on every replayed input (wfCheck/wfcCheck/feasCheck with soundness lemmas, Lemmas/CtrlWFCheck.lean; an input outside them is reported as a harness failure), not assumed of the generator. Fixed on the way: completion of a multi-output task was inferred from the notice of its LAST output, so under any-order delivery a run could spin, wait forever or exit early (fix commit d9c96b4, finding C01-last-output-overtakes now status fixed; corpus witnesses kept as regression inputs). Task values are uninterpreted terms: argument binding inside a task is C10, byte-faithful copies are C07, real (cloud)pickle is sampled only. Sampled, not modelled (harness/ekw/c01_real.py, 13 runs quick / 59 thorough, one per family: dense multi-host, GPU incl. 11-13 workers on one host, custom serdes, ndarray values, many positional arguments, replicated ndarray outputs, values of 64 KiB .. 2 MiB and one of 8 .. 24 MiB transferred / fetched / replicated, zero-length values (b"", "", (), [], empty arrays) and 0-d arrays requested and consumed on another host, task bodies that take 0.2-1.5 s; thorough tier also 4 hosts): executor/runner/runner.py run (statics, positional and keyword edges, keyword edges into defaulted parameters, generator outputs in declaration order), runner/memory.py, runner/entrypoint.py, executor/executor.py, data_server.py and the zmq/shm transport, by end-to-end runs of the real controller.impl.run + Bridge + forked executors on 1-3 hosts x 1-3 workers (and 1 host x 11-13 GPU workers; thorough tier: 4 hosts x 1-2 workers) against a sequential interpreter; an exception the tree's code raises while a run is set up (make_job, precompute, Bridge construction) is a verdict with the case as failing input (real-cluster-error where=set-up), only trouble of the machine (cannot fork, no port, start-up time-outs) is an infrastructure error. Not sampled by the real runs: values above 24 MiB, bodies longer than 1.5 s, more than 4 hosts, more than 13 workers per host, and anything that needs a process to be starved or killed (C05). Since the audit response: commands are interpreted with what they carry (TaskSequence.publish: a body publishes only the outputs named; the controller names all), termination is proved (Lemmas/SchedTerm*.lean; hypotheses WF, WFC, Feasible), the transmit source the real run took is additionally compared with the model's scan over the recorded iteration order of ds2host (another `available` host than the first is tolerated and counted).")
 TECHNIQUE = "Lean 4 inductive system invariant (StoreSound + fetch pipeline) over a small-step transition system, with differential state correspondence against the real controller driven through SimBridge"
 LEAN_PROPS = ["EkwVerif.Props.C01"]
 LEAN_DRIVERS = ["Ctrl"]
-RULE = ctrl_check.RULE + (" || real-cluster runs (10 quick / 48 thorough, three at a time in background threads): random jobs of 2-8 real callables (12-16 in the "
+RULE = ctrl_check.RULE + (" || real-cluster runs (13 quick / 59 thorough, up to three at a time in background threads; the runs that decide a hang / error verdict go alone): random jobs of 2-8 real callables (12-16 in the "
                           "wide family) whose values are ints/strings/tuples/bytes/NumPy arrays (int64/float64/uint16/big-endian, 0-d to 2-d, "
                           "non-contiguous views)/Box (a type that refuses pickle and travels only through the serde pair the job registers in "
                           "JobInstance.serdes), built injectively from every bound parameter; static and upstream inputs by position and by keyword, "
@@ -20,7 +20,19 @@ RULE = ctrl_check.RULE + (" || real-cluster runs (10 quick / 48 thorough, three 
                           "tasks run), tasks called with 11-13 positional arguments (family many-pos: all static via with_values(*args), and statics "
                           "mixed with one or two positions fed by edges, a static at a position >= 10, no two static values equal), requested outputs "
                           "whose value is an ndarray of several elements and which are also consumed on another host (family nd-replicated: 2-3 hosts "
-                          "x 1 worker, one array source per host, joins over pairs of them: the same dataset is replicated and fetched); one case of every family in the quick tier, topped up until the tier has seen an inter-host transfer and a "
+                          "x 1 worker, one array source per host, joins over pairs of them: the same dataset is replicated and fetched), values of 64 KiB .. 2 MiB "
+                          "(family big-values: every value a `bytes` or an ndarray -- int64 / float64 2-d / uint16 every-other-row view / int32 Fortran order / uint8 -- "
+                          "of that size from a seeded PCG64 stream, but for the first source whose value (bytes or int64 array) has 8 .. 24 MiB, more than a socket buffer "
+                          "holds; one source per host, all requested, joins over two sources on different hosts that return a big value "
+                          "again: the value is transferred, fetched by the controller and held by two hosts; compared through length, dtype, shape and sha256), task bodies "
+                          "that take 0.2-1.5 s of wall clock in their worker (family slow-bodies: time.sleep inside the body, 2-3 hosts, longest path <= 3.5 s, so that "
+                          "heartbeats, resend / grace timers and the 1 s linger come due while tasks run), zero-length values (family zero-length: b\"\", \"\", (), [], "
+                          "np.zeros(0), an int32 array of shape (0, 3), and a 0-d float32 array, as results of 3-5 sources -- one of them a 2-output generator -- on 2-3 "
+                          "hosts x 1 worker, every one requested AND consumed by joins over sources of different hosts; b\"\" in every case), and in the thorough tier 4 hosts x 1-2 workers with more "
+                          "sources than three hosts have workers (family four-hosts); one case of every family in the quick tier (no family is skipped because "
+                          "others failed: after two cases with a hang / error in their first run the remaining cases are run once each, and a hang / error seen in such "
+                          "a single run is reported when the same verdict is confirmed on another case, else decided by deciding runs for at most two cases, else "
+                          "recorded in the evidence as unconfirmed), topped up until the tier has seen an inter-host transfer and a "
                           "purge. Every requested value is compared (type, dtype and shape included) with a sequential interpreter of the "
                           "JobInstance; from a trace written by the task bodies, the harness-side executor launcher and a log of the Bridge commands "
                           "(nothing of the controller's State) the oracle also decides: a task body is entered at most once and in the process of "
@@ -29,21 +41,37 @@ RULE = ctrl_check.RULE + (" || real-cluster runs (10 quick / 48 thorough, three 
                           "returned by the real Bridge in the controller's order (C04's clauses on a real cluster): a transfer or fetch names a source "
                           "from which a DatasetPublished had arrived and whose purge had not been commanded, a purge comes only after every consumer "
                           "announced all its outputs, after the value of a requested dataset arrived, and not while a transfer/fetch commanded from "
-                          "that host is unanswered; a DatasetTransmitFailure or a dead data server surfaces as real-cluster-error. Counts of "
+                          "that host is unanswered; a DatasetTransmitFailure or a dead data server surfaces as real-cluster-error; an exception raised while the run is "
+                          "set up (imports of the tree, make_job, precompute, Bridge construction, get_environment) that is not of a kind the machine produces "
+                          "(queue.Empty / time-outs of the harness, OSError / ZMQError with errno EAGAIN ENOMEM EMFILE ENFILE EADDRINUSE ...) is real-cluster-error "
+                          "where=set-up with the case as failing input, confirmed by a second run with fresh ports (the step, the raise site and the frames under "
+                          "<clone>/src are in the report). Counts of "
                           "sequences/transfers/fetches/purges per run are printed; each run counts as a non-trivial case")
 ASSUMPTIONS = list(ctrl_check.ASSUMPTIONS) + [
     "real-cluster runs: wrong or missing values and the trace verdicts (wrong worker, body entered twice, GPU device missing/shared, purge not applied) always count. "
-    "A run that raises, or whose controller.impl.run does not return within 25 s of its start, is run again -- once the 1-minute load of the machine is below "
-    "its number of cores (waiting at most 180 s) and with three times the patience (75 s: a starved process is slow, a deadlocked one stays deadlocked): the "
-    "verdict is reported when it shows again, and ALSO when it does not show again but the job had started in the failing run (cluster past the start-up gate, a "
-    "task body entered) -- then with \"reproduced\": false and both runs in the replay; only when the machine was oversubscribed around the first run (load > "
-    "cores) a third run decides, and a verdict seen in the first run alone is dropped and counted (real:hang-under-load-not-reproduced-*). It is dropped (and "
-    "counted as real:flaky-startup-*) when no task body had been entered. A cluster that is not up within 20 s (a forked helper can deadlock in "
-    "fork-with-threads under heavy machine load; 11-13 forked workers need longer on an oversubscribed machine) is started again with 40, 80 and 160 s of "
-    "patience; a cluster that never comes up is reported as real-cluster-hang where=start-up",
+    "A run that raises, or whose controller.impl.run does not return within 25 s of its start (75 s when the machine has more runnable processes than cores at that "
+    "moment: a healthy run took 20-45 s there, 0.3-6 s on a quiet machine), is decided by further runs of the same case (same hash seed, fresh "
+    "ports): these start once the 1-minute load of the machine is below its number of cores (waiting at most 180 s; 20 s when such a wait has run out within the "
+    "last ten minutes), have three times the patience (75 s: a starved "
+    "process is slow, a deadlocked one stays deadlocked) and go ALONE (no other real run of the check meanwhile). `loaded` = load per core > 1.0 around the first run "
+    "or still when the deciding run starts. NOT loaded: the verdict is reported when the second run shows it again, and ALSO when it does not but the job had started "
+    "in the failing run (cluster past the start-up gate, a task body entered) -- then with \"reproduced\": false; it is dropped (counted as real:flaky-startup-*) "
+    "when no task body had been entered. LOADED, and the verdict is one a starved machine can produce on a healthy tree (every hang; an error whose text speaks of a "
+    "heartbeat, a time-out, a grace period or a connection -- NOT an exception object of the tree's code reported up, such as TaskFailure(... TypeError ...) or "
+    "DatasetTransmitFailure(... BufferError ...), which follows the rules of the machine that is not loaded): the verdict is reported only when it shows in EVERY deciding run, the patient second AND a patient third one (a "
+    "deterministic failure always reproduces); clean in either -> dropped, counted (real:hang-under-load-not-reproduced-*) and noted with the loads. The load figures "
+    "and the summaries of all runs are part of the replay record and of the evidence (real_dropped_under_load). A cluster that is not up within 20 s (a forked "
+    "helper can deadlock in fork-with-threads under heavy machine load; 11-13 forked workers need longer on an oversubscribed machine) is started again with 40, 80 "
+    "and 160 s of patience; a cluster that never comes up is reported as real-cluster-hang where=start-up",
     "real-cluster runs: below the executor the code sends local messages (worker <-> executor, ipc) through fresh PUSH sockets with a 1 s linger and no "
     "acknowledgement (comms.callback): a process that is not scheduled for more than a second loses such a message and the job stalls. Machine load of that "
-    "kind is outside C01; the check limits itself to three concurrent clusters and makes its deciding re-runs on a calmer machine (above)",
+    "kind is outside C01; the check limits itself to three concurrent clusters (two when the machine has more runnable processes than cores, one when more than "
+    "twice as many), makes its deciding re-runs alone and on a calmer machine (above), and runs the "
+    "cluster processes at niceness -10 when it may (they mostly wait)",
+    "real-cluster runs: infrastructure error (exit 2) only for trouble of the machine -- the runner cannot be forked, no free port range, a set-up exception of a "
+    "kind the machine produces on every attempt without the same frames of the tree below it, the runner exiting without a result; an exception out of the tree's "
+    "code in the set-up phase is a verdict (above). A set-up exception that does not show again on the second run is reported with \"reproduced\": false when it "
+    "was raised by a line under <clone>/src or in make_job / precompute, else dropped and counted",
 ]
 
 
